@@ -138,6 +138,26 @@ def lens (fs : List Field) (num : Nat) : List Bytes :=
     | (n, .len b) => if n = num then some b else none
     | _ => none
 
+/-- all occurrences of field `num`, any wire type, in order -/
+def occs (fs : List Field) (num : Nat) : List WVal :=
+  fs.filterMap fun f => if f.1 = num then some f.2 else none
+
+/-- a packed block: varints until the payload is consumed -/
+def unpack : Nat → Bytes → Option (List Nat)
+  | 0, _ => none
+  | fuel + 1, bs =>
+    if bs = [] then some [] else
+    match getVarint 10 bs with
+    | some (v, r) => (unpack fuel r).map (v :: ·)
+    | none => none
+
+/-- repeated uint64 field: unpacked occurrences and packed blocks, in order of appearance -/
+def u64s (fs : List Field) (num : Nat) : Option (List Nat) :=
+  ((occs fs num).mapM fun (v : WVal) => match v with
+    | WVal.varint x => some [x]
+    | WVal.len b => unpack (b.length + 1) b
+    | _ => some []).map List.flatten
+
 /-- scalar varint field: last occurrence wins, default 0 -/
 def lastVarint (fs : List Field) (num : Nat) : Nat := ((varints fs num).getLast?).getD 0
 
